@@ -244,4 +244,11 @@ theorem concurrent_zero_length_counterexample (fs : Fs) (key : Nat) (w : Write) 
     (concDiskGetSet fs key w).2 = .raised ∧ (concDiskGetSet fs key w).1 key = none :=
   conc_zero_length_counterexample' fs key w h
 
+/-- OpenmlSource.read hands back every permit of the download semaphore it takes, on every path
+(source cached before, cached by a peer while waiting in `acquire()`, not cached; the `finally:` covers
+normal, raising and abandoned reads), and takes at most one -/
+theorem semaphore_balanced (hasSem cached1 cached2 : Bool) :
+    (openmlSem hasSem cached1 cached2).acquires = (openmlSem hasSem cached1 cached2).releases ∧
+    (openmlSem hasSem cached1 cached2).acquires ≤ 1 := semaphore_balanced' hasSem cached1 cached2
+
 end Coba.C19
